@@ -185,6 +185,14 @@ def subworkflow_cases(check):
     for k, text in enumerate(["?", "? \n: v\n", "? \n", ": v\n", "version: v0.2.0\n? \n: v\n", "steps:\n  ? \n  : {kind: foreach}\n"]):
         add({"workflow.yaml": text}, "main file with an empty key (%d)" % k, "emptykey:main", "error")
         add({"workflow.yaml": main % "a.yaml", "a.yaml": text}, "sub-workflow file with an empty key (%d)" % k, "emptykey:sub", "error")
+    # sub-workflows that are complete workflows but offer other outputs than the loop step needs (also one level down)
+    for k, outs in enumerate(["done: {t: !expr \"$.steps.w.outputs.success.tag\"}", "error: {t: !expr \"$.steps.w.outputs.success.tag\"}",
+                              "finished: {t: !expr \"$.steps.w.outputs.success.tag\"}\n  failed: {e: !expr \"$.steps.w.outputs.success.tag\"}", "Success: {t: !expr \"$.steps.w.outputs.success.tag\"}"]):
+        leaf = LEAF.split("outputs:")[0] + "outputs:\n  " + outs + "\n"
+        add({"workflow.yaml": main % "a.yaml", "a.yaml": leaf}, "sub-workflow without an output named success (%d)" % k, "sub-outputs:other-names", "error")
+        add({"workflow.yaml": main % "a.yaml", "a.yaml": SUB_TMPL % "b.yaml", "b.yaml": leaf}, "nested sub-workflow without an output named success (%d)" % k, "sub-outputs:other-names-nested", "error")
+    add({"workflow.yaml": main % "a.yaml", "a.yaml": LEAF.replace("outputs:\n  success:", "output:")}, "sub-workflow with the deprecated single output", "sub-outputs:legacy", "ok")
+    add({"workflow.yaml": main % "a.yaml", "a.yaml": LEAF + "  extra: {e: !expr \"$.steps.w.outputs.success.tag\"}\n"}, "sub-workflow with success and another output", "sub-outputs:success+other", "ok")
     add({"workflow.yaml": ""}, "empty main file", "empty-main", "error")
     add({"other.yaml": LEAF}, "no workflow.yaml", "no-main", "error")
     return out
@@ -269,8 +277,24 @@ def run(check):
         "outputSchema:default-not-json": wf(GOODIN, "outputSchema:\n  success:\n    schema: {root: R, objects: {R: {id: R, properties: {t: {type: {type_id: string}}, d: {required: false, default: \"{\", type: {type_id: integer}}}}}}\n"),
         "outputSchema:for-undeclared-output": wf(GOODIN, "outputSchema:\n  other:\n    schema: {root: R, objects: {R: {id: R, properties: {t: {type: {type_id: string}}}}}}\n"),
     }
+    NESTED = ", o: {required: false, type: {type_id: ref, id: Sub}}"
+    def sub(prop):
+        return ", Sub: {id: Sub, properties: {k: %s}}" % prop
+    schema_cases.update({
+        "input:default-in-nested-object-not-json": wf(root(NESTED, extra=sub('{required: false, default: abc, type: {type_id: integer}}'))),
+        "input:default-in-nested-object-ok": wf(root(NESTED, extra=sub('{required: false, default: "5", type: {type_id: integer}}'))),
+        "input:default-in-list-item-object": wf(root(", l: {required: false, type: {type_id: list, items: {type_id: ref, id: Sub}}}", extra=sub('{required: false, default: "{", type: {type_id: integer}}'))),
+        "input:default-two-levels-down": wf(root(NESTED, extra=", Sub: {id: Sub, properties: {s: {required: false, type: {type_id: ref, id: Sub2}}}}, Sub2: {id: Sub2, properties: {k: {required: false, default: nope, type: {type_id: integer}}}}")),
+        "outputSchema:default-in-nested-object": wf(GOODIN, "outputSchema:\n  success:\n    schema: {root: R, objects: {R: {id: R, properties: {t: {type: {type_id: string}}, o: {required: false, type: {type_id: ref, id: S}}}}, "
+                                                    "S: {id: S, properties: {k: {required: false, default: \"{\", type: {type_id: integer}}}}}}\n"),
+    })
+    # input documents that reach the nested objects (a default is only read when the object is there and the property is not)
+    INPUTS = ["{tag: x}", "{tag: x, o: {}}", "{tag: x, l: [{}]}", "{tag: x, o: {s: {}}}"]
     for name, text in sorted(schema_cases.items()):
-        cases_meta.append({"files": {"workflow.yaml": text}, "what": "schema section: " + name, "class": "schema:" + name, "engine": {"input_yaml": "{tag: x}"}, "run": True})
+        for k, doc in enumerate(INPUTS):
+            if k and not ("nested" in name or "list-item" in name or "levels" in name):
+                continue
+            cases_meta.append({"files": {"workflow.yaml": text}, "what": "schema section: %s, input %s" % (name, doc), "class": "schema:" + name, "engine": {"input_yaml": doc}, "run": True})
     cases = []
     for i, m in enumerate(cases_meta):
         eng = dict(m.get("engine") or {})
